@@ -554,8 +554,8 @@ class Packet(object):
         if length > len(datagram):
             raise PacketError("length error")
 
-        if key and hdr.pkt_type not in (PacketType.CLIENT_HELLO, PacketType.SERVER_HELLO):
-            # packet is encrypted, decrypt using the given key
+        if key:
+            # a connection that holds a key only accepts encrypted packets
             length += PacketHeader.TAG_SIZE
             iv = datagram[:PacketHeader.IV_SIZE]
             aad = datagram[:PacketHeader.SIZE]
@@ -1252,6 +1252,12 @@ class ConnectionBase(object):
 
         # first, decrypt or check the CRC
         # ensure that this packet validates correctly
+
+        if not self.session_key_bytes and (hdr.count != 1 or \
+           hdr.pkt_type not in (PacketType.CLIENT_HELLO, PacketType.SERVER_HELLO)):
+            # without a key only a single handshake hello is processed
+            self.stats.dropped += 1
+            return False
 
         try:
             pkt = Packet.from_bytes(hdr, self.session_key_bytes, datagram)
